@@ -369,7 +369,7 @@ def run(ctx):
     per = {}
     for backend in S.BACKENDS:
         _G["cfg"] = {"backend": backend, "subsets": ALL_SUBSETS if ctx.thorough else QUICK_SUBSETS}
-        agg, seen = engine.bfs(ctx, _expand, [()], label=backend, max_states=20000, cap_s=1800 if ctx.thorough else 240)
+        agg, seen = engine.bfs(ctx, _expand, [()], label=backend, max_states=20000, cap_s=5400 if ctx.thorough else 1800)
         per[backend] = {"states": agg.states, "transitions": agg.transitions, "max_depth": agg.max_depth}
         _merge(total, agg)
     # restarts (a new Datastore object over the same file, nothing registered in it) are explored in a
@@ -378,7 +378,7 @@ def run(ctx):
     for backend in ("sqlite", "peewee"):
         _G["buckets"] = (A1,)
         _G["cfg"] = {"backend": backend, "subsets": [("type",), ("type", "data")], "restart": True}
-        agg, seen = engine.bfs(ctx, _expand, [()], label=backend + "/restart", max_states=20000, cap_s=1800 if ctx.thorough else 240)
+        agg, seen = engine.bfs(ctx, _expand, [()], label=backend + "/restart", max_states=20000, cap_s=5400 if ctx.thorough else 1800)
         per[backend + "/restart"] = {"states": agg.states, "transitions": agg.transitions, "max_depth": agg.max_depth}
         _merge(total, agg)
     _G["buckets"] = (A1, B2)
